@@ -1,7 +1,7 @@
 (* S for C10: the SubRip cue grammar as abstract syntax, its meaning (`cues`) and its concrete syntax
    (`print_file`).  Written from the property statement and the SubRip conventions
    (counter line / "HH(H):MM:SS,mmm --> HH(H):MM:SS,mmm" / 1..n text lines / blank line;
-   <b> <i> <u> <font color=..> and the brace forms {b} {i} {u}); shares no code with
+   <b> <i> <u> <font color=..> and the brace forms {b} {i} {u} {bold} {italic} {underline}); shares no code with
    Model/SrtReader.v (own digit printing, own white-space and colour tables).
 
    The property reads:  reading `print_file f` gives exactly `cues f`:
@@ -30,7 +30,7 @@ Inductive node :=
 | NBreak
 | NTag (k : tagk) (sy : syn) (body : list node)
 | NFont (c : colspec) (q : quoting) (body : list node)
-| NStray (k : tagk) (sy : syn).              (* a closing tag with no opener: encloses nothing *)
+| NStray (k : tagk) (sy : syn).              (* a closing tag that closes nothing: encloses nothing *)
 
 Record clock := mkClock { k_h : Z; k_wide : bool; k_m : Z; k_s : Z; k_ms : Z }.
 
@@ -255,6 +255,23 @@ Fixpoint wf_node (n : node) : bool :=
   | NFont c _ body => wf_colspec c && (fix go (l : list node) : bool := match l with [] => true | x :: l' => wf_node x && go l' end) body
   | NStray _ _ => true
   end.
+(* A closing tag closes the innermost open element when it carries that element's name (names compare without
+   regard to case, and the brace form of a name is the name).  `NStray k sy` stands for a closer that closes
+   nothing, so it must not carry the name of the tag that directly encloses it - otherwise the printed text
+   would also be the printed form of a different payload (<b>x</b>y</b>).  ctx = the directly enclosing b/i/u tag. *)
+Definition long_syn (sy : syn) : bool := match sy with AngleLong | BraceLong => true | _ => false end.
+Definition tagk_eqb (a b : tagk) : bool := match a, b with KB, KB | KI, KI | KU, KU => true | _, _ => false end.
+Definition same_name (k : tagk) (sy : syn) (k' : tagk) (sy' : syn) : bool :=
+  tagk_eqb k k' && Bool.eqb (long_syn sy) (long_syn sy').
+Fixpoint stray_ok (ctx : option (tagk * syn)) (n : node) : bool :=
+  match n with
+  | NStray k sy => match ctx with Some (k', sy') => negb (same_name k sy k' sy') | None => true end
+  | NTag k sy body =>
+      (fix go (l : list node) : bool := match l with [] => true | x :: l' => stray_ok (Some (k, sy)) x && go l' end) body
+  | NFont _ _ body =>
+      (fix go (l : list node) : bool := match l with [] => true | x :: l' => stray_ok None x && go l' end) body
+  | _ => true
+  end.
 Definition all_ws (l : text) : bool := forallb ws_char l.
 Definition no_eol (l : text) : bool := forallb (fun c => negb ((c =? 10) || (c =? 13))) l.
 Definition is_dec (c : Z) : bool := (48 <=? c) && (c <=? 57).
@@ -264,7 +281,7 @@ Definition wf_cue (last : bool) (c : cue_src) : bool :=
   negb (match c_ws1 c with [] => true | _ => false end) && forallb blank_char (c_ws1 c) &&
   negb (match c_ws2 c with [] => true | _ => false end) && forallb blank_char (c_ws2 c) &&
   no_eol (c_tail c) && (match c_tail c with [] => true | x :: _ => negb (is_dec x) end) &&
-  forallb wf_node (c_payload c) &&
+  forallb wf_node (c_payload c) && forallb (stray_ok None) (c_payload c) &&
   forallb (fun l => negb (all_ws l)) (payload_lines (c_payload c)) &&
   forallb (forallb blank_char) (c_blank c) &&
   (last || negb (match c_blank c with [] => true | _ => false end)).
@@ -277,11 +294,10 @@ Fixpoint wf_cues (l : list cue_src) : bool :=
 Definition wf_file (f : file_src) : bool :=
   forallb (forallb blank_char) (f_lead f) && wf_cues (f_cues f).
 
-(* sub-grammars used by the theorems *)
+(* sub-grammars used by the proofs *)
 Definition plain_node (n : node) : bool := match n with NChar _ | NBreak => true | _ => false end.
 Definition plain_file (f : file_src) : bool := forallb (fun c => forallb plain_node (c_payload c)) (f_cues f).
-(* b/i/u tags in angle syntax (short, long, upper case) and <font color=..> tags (hex or named colour, any
-   quoting), nested and adjacent at will, around plain text and character references *)
+(* the payloads written in angle syntax only (short, long, upper case names; <font color=..>; stray closers) *)
 Fixpoint angle_node (n : node) : bool :=
   match n with
   | NChar _ | NRef _ | NBreak => true
@@ -289,52 +305,11 @@ Fixpoint angle_node (n : node) : bool :=
       negb (is_brace sy) && (fix go (l : list node) : bool := match l with [] => true | x :: l' => angle_node x && go l' end) body
   | NFont _ _ body =>
       (fix go (l : list node) : bool := match l with [] => true | x :: l' => angle_node x && go l' end) body
-  | _ => false
+  | NStray _ sy => negb (is_brace sy)
   end.
 Definition angle_file (f : file_src) : bool := forallb (fun c => forallb angle_node (c_payload c)) (f_cues f).
-(* the same with the long brace forms {bold} {italic} {underline} allowed as well: everything of the grammar
-   except the short brace forms and stray closers (the recorded findings) *)
-Fixpoint markup_node (n : node) : bool :=
-  match n with
-  | NChar _ | NRef _ | NBreak => true
-  | NTag _ sy body =>
-      negb (match sy with BraceShort => true | _ => false end) &&
-      (fix go (l : list node) : bool := match l with [] => true | x :: l' => markup_node x && go l' end) body
-  | NFont _ _ body =>
-      (fix go (l : list node) : bool := match l with [] => true | x :: l' => markup_node x && go l' end) body
-  | NStray _ _ => false
-  end.
-Definition markup_file (f : file_src) : bool := forallb (fun c => forallb markup_node (c_payload c)) (f_cues f).
 
 (* two cues say the same thing: same clock fields (the width of the hour field is free) and same payload *)
 Definition same_clock (a b : clock) : Prop := k_h a = k_h b /\ k_m a = k_m b /\ k_s a = k_s b /\ k_ms a = k_ms b.
 Definition same_content (c c' : cue_src) : Prop :=
   same_clock (c_begin c) (c_begin c') /\ same_clock (c_end c) (c_end c') /\ c_payload c = c_payload c'.
-
-(* ------------------------------------------------------------------ triggers of the recorded findings *)
-Fixpoint node_has (p : node -> bool) (n : node) : bool :=
-  p n ||
-  match n with
-  | NTag _ _ body | NFont _ _ body =>
-      (fix go (l : list node) : bool := match l with [] => false | x :: l' => node_has p x || go l' end) body
-  | _ => false
-  end.
-(* {b} {i} {u} : the short brace forms *)
-Definition trigger_brace_short (f : file_src) : bool :=
-  existsb (fun c => existsb (node_has (fun n => match n with NTag _ BraceShort _ | NStray _ BraceShort => true | _ => false end))
-                            (c_payload c)) (f_cues f).
-(* a closing tag that closes nothing *)
-Definition trigger_stray_end (f : file_src) : bool :=
-  existsb (fun c => existsb (node_has (fun n => match n with NStray _ _ => true | _ => false end)) (c_payload c)) (f_cues f).
-(* the four characters  backslash n backslash r  in the text of a cue *)
-Fixpoint has_sub (p s : text) : bool :=
-  (fix pre (p s : text) : bool :=
-     match p, s with [], _ => true | x :: p', y :: s' => (x =? y) && pre p' s' | _ :: _, [] => false end) p s
-  || match s with [] => false | _ :: s' => has_sub p s' end.
-Definition trigger_backslash (f : file_src) : bool :=
-  existsb (fun c => has_sub [92;110;92;114] (print_nodes (c_payload c))) (f_cues f).
-(* CR LF terminators read through a stream that does not translate them (io.StringIO, newline=""), in a
-   file that has a cue of two or more lines *)
-Definition trigger_crlf_untranslated (f : file_src) (translated : bool) : bool :=
-  f_crlf f && negb translated &&
-  existsb (fun c => match payload_lines (c_payload c) with _ :: _ :: _ => true | _ => false end) (f_cues f).
